@@ -236,7 +236,24 @@ Definition dispatch (c : registry_consts) (cfg : config) (configured : string) :
 Definition chain_calls sent (reg : registry) (cfg : config) (elems : list string) : list string :=
   flat_map (fun n => match call sent reg cfg n with Called p => [p] | _ => [] end) elems.
 
+(** message.c expands %{n1}%{n2}...: each known data source is called in order; the first unknown name ends the expansion
+    (documented: "[ERROR: Data source 'x' not found.]" and return) *)
+Fixpoint format_calls sent (reg : registry) (cfg : config) (elems : list string) : list string :=
+  match elems with
+  | [] => []
+  | n :: t => match call sent reg cfg n with Called p => p :: format_calls sent reg cfg t | _ => [] end
+  end.
+Fixpoint take_while {A} (f : A -> bool) (l : list A) : list A :=
+  match l with [] => [] | x :: t => if f x then x :: take_while f t else [] end.
+
 (** switching one guard off *)
 Definition switch_off (g : string) (cfg : config) : config := fun x => if String.eqb x g then false else cfg x.
+(** the whole logging path of one exec (action/log-syscall-exec.c), all filters answering PASS and a non-empty message:
+    filter chain walk, format expansion, dispatch to the configured output - the implementations that run, in order *)
+Definition exec_calls (c : registry_consts) (cfg : config) (chain fmt : list string) (output : string) : list string :=
+  chain_calls (rc_sentinel c) (rc_flt c) cfg chain
+  ++ format_calls (rc_sentinel c) (rc_ds c) cfg fmt
+  ++ match dispatch c cfg output with Called p => [p] | _ => [] end.
+
 Definition all_on : config := fun _ => true.
 Definition all_off : config := fun _ => false.
